@@ -24,6 +24,6 @@ mkdir -p "$H"; rsync -a --exclude bin /verif/harness/ "$H/"
 sed -i "s#=> /repo#=> $WT#" "$H/go.mod"
 (cd "$H" && go build -tags verif -o bin/$driver ./cmd/$driver)
 mkdir -p /verif/.work/mut
-(cd "$H" && ./bin/$driver "$@" -out /verif/.work/mut/$name.jsonl) || echo "driver exit $?"
+(cd "$H" && timeout -s QUIT 900 ./bin/$driver "$@" -out /verif/.work/mut/$name.jsonl) || echo "driver exit $?"
 git -C /repo worktree remove --force "$WT"; rm -rf "$H"
 echo "cases in /verif/.work/mut/$name.jsonl"
